@@ -7,6 +7,17 @@ TB = ("Trusted: govc (own VC generator over go/ast+go/types; value model for sli
       "z3 4.8.12 / z3 5.1.0 / cvc5 1.0.3, go/types; integers mathematical; strings uninterpreted. ")
 
 claimed = {
+ "C19": dict(
+   text="Typestate/effect contract on the real TemplateGenFromString, TsGenFromString and WriteFile: after the call of os.Create only calls from an "
+        "explicit input-infallible list may follow (fmt.Errorf, WriteFile / WriteString / Close); WriteFile itself is io_only; every function of the "
+        "repository is treated as fallible on the input. The obligations are generated from the function bodies in /repo on every run and decided by "
+        "govc's effect analysis (call order over the AST, no bound). Completeness of the output: both template constants end with {{.CodeLast}} and "
+        "the TypeScript builder's last WriteString writes b.CodeLast. A failed obligation is replayed by running the real generator on rejected "
+        "grammars over a pre-existing file.",
+   note="Trusted: govc's effect analysis (syntactic: source order of calls, enclosing loop of os.Create, defers), go/types callee resolution. Assumed "
+        "input-infallible: text/template New/Parse/Execute on the constant templates with string/bool fields, (*os.File).WriteString/Close, fmt.Errorf. "
+        "I/O errors of the operating system are outside the property.",
+   design="§5 C19", technique="contract-based verification: effect/typestate contract checked over the real function bodies"),
  "C05": dict(
    text="Deductive proof that table compression is lossless: PackTable's postcondition (every non-blank entry retrievable through offset+check, "
         "no blank entry claimed by its row) is proved for every rectangular matrix with quantified loop invariants over all 13 loops, "
@@ -20,10 +31,13 @@ claimed = {
  "C04": dict(
    text="Deductive proof, for every pair of candidate actions, that the real ResolveConflict / UseDefaultResolveConflict implement the "
         "statement's rules (higher precedence wins; equal: %left reduces, %right shifts, %nonassoc is an error; no precedence: shift wins, "
-        "earlier rule wins), with frame (no existing object modified). Contracts are transcribed from the property statement; obligations are "
-        "generated from /repo's source on every run.",
-   note=TB + "Under contract so far: (*LALR1).ResolveConflict, (*LALR1).UseDefaultResolveConflict. The fold over a cell's candidate list "
-        "(CheckAndResolveConflict), GenTable's encoding and the attachment of precedence in Parser/Vistor.go are not yet under contract.",
+        "earlier rule wins), with frame (no existing object modified); and for CheckAndResolveConflict that every candidate action carries exactly the "
+        "precedence of its rule (%prec / last precedence symbol) or token, that each fold step over a cell applies precedence first and the yacc "
+        "defaults otherwise, and that the surviving action is a candidate of that cell or an ERROR action. Contracts are transcribed from the "
+        "property statement; obligations are generated from /repo's source on every run.",
+   note=TB + "Under contract: (*LALR1).ResolveConflict, UseDefaultResolveConflict, CheckAndResolveConflict. Not yet under contract: GenTable's "
+        "encoding of the surviving action and the attachment of precedence levels to symbols and rules in Parser/Vistor.go (astDeclareVistor.Process, "
+        "RuleVistor.Process, BuildLALR1). Reduce/reduce between two rules that both carry precedence is unspecified by C04 and left unconstrained.",
    design="§5 C04", technique="contract-based deductive verification (govc VC generator + SMT)"),
 }
 
